@@ -1,4 +1,5 @@
 //! C18: every emitted message goes, as raw bytes, through the Lean CDDL validator.
+use isomdl::presentation::Stringify;
 use crate::gen::gen_text;
 use crate::sess::{self, MDL, NS};
 use crate::world::{self, Pki};
@@ -77,6 +78,7 @@ fn device_keys(rng: &mut rand_chacha::ChaCha8Rng) -> Vec<(&'static str, CoseKey,
     vec![("p256", world::cose_key_of(&k), Some(k)),
          ("p384", CoseKey::EC2 { crv: EC2Curve::P384, x: vec![3; 48], y: EC2Y::Value(vec![4; 48]) }, None),
          ("p521", CoseKey::EC2 { crv: EC2Curve::P521, x: vec![5; 66], y: EC2Y::SignBit(true) }, None),
+         ("p256k", CoseKey::EC2 { crv: EC2Curve::P256K, x: vec![8; 32], y: EC2Y::Value(vec![9; 32]) }, None),
          ("ed25519", CoseKey::OKP { crv: OKPCurve::Ed25519, x: vec![6; 32] }, None),
          ("ed448", CoseKey::OKP { crv: OKPCurve::Ed448, x: vec![7; 57] }, None)]
 }
@@ -175,6 +177,22 @@ pub fn run(ctx: &mut Ctx) {
             }
             let _ = cbor::from_slice::<DeviceResponse>(&pt);
             rdr.handle_response(&msg);
+        }
+        // the device's send counter on its last values (a long-lived session restored from storage): the responses
+        // it still emits, and the status-only message once it cannot encrypt any more, are messages like any other
+        for last in [u32::MAX - 1, u32::MAX] {
+            let mut v = sess::b64_to_value(&dev.stringify().unwrap());
+            sess::vset(&mut v, "device_message_counter", Value::Integer(last.into()));
+            let Ok(mut d2) = device::SessionManager::parse(sess::value_to_b64(&v)) else { continue };
+            let dts: Vec<&str> = held_types.iter().take(1).map(|s| s.as_str()).collect();
+            let reqs: Vec<ItemsRequest> = dts.iter().map(|d| ItemsRequest { doc_type: d.to_string(), namespaces: sess::simple_namespaces(&["family_name"]), request_info: None }).collect();
+            d2.prepare_response(&reqs, sess::permit_all(&dts, &["family_name"]));
+            let mut guard = 0;
+            while let Some((_, payload)) = d2.get_next_signature_payload().map(|(u, p)| (u, p.to_vec())) {
+                let sig: Signature = p256::ecdsa::signature::Signer::sign(keys[0].2.as_ref().unwrap(), &payload);
+                if d2.submit_next_signature(sig.to_vec()).is_err() { break; } guard += 1; if guard > 20 { break; }
+            }
+            if let Some(msg) = d2.retrieve_response() { check(ctx, "sessionData", &format!("send-counter-{}", if last == u32::MAX { "exhausted" } else { "last" }), &msg); }
         }
     }
 }
